@@ -27,11 +27,35 @@ def _panic_to_failure(res, txt):
     return True
 
 
+def _deframe(b):
+    """Strips the faketime playback framing (\\0\\0PB, 8 bytes time, 4 bytes length) from captured output."""
+    out, i = bytearray(), 0
+    while i < len(b):
+        if b[i:i + 4] == b"\x00\x00PB" and i + 16 <= len(b):
+            n = int.from_bytes(b[i + 12:i + 16], "big")
+            out += b[i + 16:i + 16 + n]
+            i += 16 + n
+        else:
+            out.append(b[i])
+            i += 1
+    return out.decode("utf-8", "replace")
+
+
 def run_faketime(ctx, tier=None, seed=None, subdir=None, model=True):
     res = run_pair(ctx, "c15", PID, MODEL_VOS if model else None, faketime=True, tier=tier, seed=seed, subdir=subdir, timeout=900)
     if res.error and "exited with" in res.error:
-        clean = res.error.replace("\x00", "")
-        _panic_to_failure(res, clean)
+        # the driver process died (a panic inside mieru kills it): run it once more and keep the whole, de-framed output
+        import subprocess
+        out = os.path.join(WORK, PID, "crash")
+        os.makedirs(out, exist_ok=True)
+        try:
+            p = subprocess.run([os.path.join(BIN, "c15_ft"), "-seed", str(ctx.seed if seed is None else seed), "-tier", tier or ctx.tier, "-out", out],
+                               cwd=out, env=dict(GOENV, GOMAXPROCS="2"), stdout=subprocess.PIPE, stderr=subprocess.STDOUT, timeout=600)
+            txt = _deframe(p.stdout)
+        except subprocess.TimeoutExpired as e:
+            txt = _deframe(e.stdout or b"")
+        if _panic_to_failure(res, txt):
+            res.report["evaluations"] = res.report.get("evaluations", 0) or 1
     return res
 
 
